@@ -13,6 +13,8 @@ WS = [b" ", b"\n", b"\t", b"\r", b"  ", b" \n "]
 CALL_TARGETS = ["call_strict", "call_borrowed", "call_lenient", "call_value"]
 REPLY_TARGETS = ["reply_typed", "reply_value"]
 TARGETS = CALL_TARGETS + REPLY_TARGETS
+# Connection::call_method (send_call + receive_reply): same frames as the reply targets
+CALLM_TARGETS = ["callm_typed", "callm_value"]
 
 
 def name_of(rng, n):
@@ -23,7 +25,7 @@ def name_of(rng, n):
 def frame(rng, target, kind=None, size=None):
     """One frame (bytes without the terminator) and its kind label. `size` pads a string member so
     that the frame has exactly that many bytes (when feasible)."""
-    is_call = target.startswith("call")
+    is_call = target.startswith("call_")
     if kind is None:
         kind = rng.choices(
             ["valid", "valid_big", "wrong_shape", "malformed", "padded", "garbage", "escaped", "flags"],
